@@ -11,6 +11,7 @@ if only:
     seeds = [s for s in seeds if s in only.split(",")]
 mpath = os.path.join(ROOT, "seeded", "MATRIX.json")
 matrix = json.load(open(mpath)) if os.path.exists(mpath) else {}
+os.environ["VERIF_EVIDENCE_DIR"] = "/tmp/seed-evidence"
 for s in seeds:
     patch = os.path.join(ROOT, "seeded", s, "patch.diff")
     if subprocess.run(["git", "-C", REPO, "apply", patch]).returncode != 0:
